@@ -60,7 +60,7 @@ class Prelude(Raw):
 
 class _Extract:
     def __init__(self, file, subs=(), spec=None, loops=None, before=(), after=(), label=None,
-                 note=None, replace_loops=None, index_loops=None):
+                 note=None, replace_loops=None, index_loops=None, optional=False):
         self.file = file
         self.subs = list(subs)
         self.spec = spec
@@ -71,6 +71,7 @@ class _Extract:
         self.note = note
         self.applied = []
         self.item = None
+        self.optional = optional   # the function need not exist (e.g. an override of a std default)
         self.replace_loops = dict(replace_loops or {})
         # R8: desugar `for X in &mut V {BODY}` (loop ordinal k) into the index loop
         # `let mut I: usize = 0; while I < V.len() <clauses> { let X = &mut V[I]; BODY I += 1; }`
@@ -82,7 +83,12 @@ class _Extract:
 
     def render(self, root):
         src = source(root, self.file)
-        item = self.locate(src)
+        try:
+            item = self.locate(src)
+        except LostAnchor:
+            if self.optional:
+                return '', None
+            raise
         self.item = item
         text = item.orig
         inserts = []  # (rel_offset, marker)
